@@ -80,7 +80,8 @@ def build(ctx):
 TAG_RULES = [
     (r'delta_list::fn (lemma_step_conservation|lemma_chain_acb_some|theorem_conservation|lemma_sfla_sum|lemma_no_flag|lemma_sale_|lemma_pend_step|lemma_nonreg_frac)', ['C03']),
     (r'delta_list::fn lemma_sells_', ['C05']),
-    (r'delta_list::fn (lemma_step_scales|lemma_scale_|lemma_ratio_scale_invariant|theorem_scaled_ledgers|theorem_split_|lemma_apply_scaled|lemma_split_block_inv|lemma_block_sum|lemma_msum_zero|lemma_step_wf|lemma_chain_wf|lemma_chain_concat)', ['C15']),
+    (r'delta_list::fn (lemma_step_scales|lemma_scale_|lemma_ratio_scale_invariant|theorem_scaled_ledgers|theorem_split_|lemma_apply_scaled|lemma_split_block_inv|lemma_block_sum|lemma_msum_zero|lemma_step_wf|lemma_chain_wf|lemma_chain_concat)', ['C15', 'C10']),
+    (r'delta_list::fn (theorem_buy_block|lemma_buy_block_inv|theorem_summary_roundtrip)', ['C10', 'C16']),
     (r'delta_list::fn (lemma_chain_side|lemma_settle_insert)', ['C17']),
     (r'delta_list::fn lemma_opening_equiv', ['C16']),
     (r'delta_list::fn get_delta_superficial_loss_info', ['C02', 'C03']),
